@@ -87,6 +87,9 @@ def route_graph(ctx, mol, rng, force=None):
     from ..oracles import ctab
     from .c07 import random_style
     route = force or rng.choice(["direct", "v3000", "v3000", "v2000"])
+    if route == "v2000":
+        mol = mol.copy()
+        mol.bonds = [(i, j, t if 1 <= t <= 8 else 1) for i, j, t in mol.bonds]  # bond type is non-identity data; V2000 knows 1..8
     if route == "v2000" and not ctab.v2000_representable(mol):
         route = "v3000"
     ctx.seen("route", route)
